@@ -253,6 +253,9 @@ def check_run(ctx, case, by_construction=False):
                         ctx.fail("run", "C04.exception-status", case, "the renderer's own tags never show literally",
                                  report, sig="markup-leak")
                         break
+                if plain_report.count("\\" + L) > msg.count("\\" + L):
+                    ctx.fail("run", "C04.exception-status", case, "no escape artifacts (backslash before an angle bracket)",
+                             report, sig="escape-artifact")
                 c = core(report)
                 for line in msg.split("\n"):
                     if core(line) and core(line) not in c:
